@@ -156,7 +156,7 @@ fn trace_json(init: HLCTimestamp, steps: &[Step]) -> J {
 
 pub fn run(tier: Tier) -> i32 {
     let mut report = Report::new("C09", tier, "model_checking");
-    let depth = tier.pick(5, 9);
+    let depth = tier.pick(6, 14);
     let inits: Vec<HLCTimestamp> = [0u16, 65533, 65534, 65535]
         .iter()
         .map(|&c| HLCTimestamp::new(Duration::from_secs(BASE), c, OWN))
